@@ -30,6 +30,8 @@ pub enum Op {
     Size,
     IsEmpty,
     MaxSize,
+    /// `is_full()`: compared only on stacks within their maximum (an over-full stack is neither)
+    IsFull,
 }
 
 fn op_to_json(op: &Op) -> Value {
@@ -47,6 +49,7 @@ fn op_to_json(op: &Op) -> Value {
         Op::SetMax(c) => json!({"op":"set_max","c":c.to_string()}),
         Op::Size => json!({"op":"size"}),
         Op::IsEmpty => json!({"op":"is_empty"}),
+        Op::IsFull => json!({"op":"is_full"}),
         Op::MaxSize => json!({"op":"max_size"}),
     }
 }
@@ -72,6 +75,7 @@ fn op_from_json(v: &Value) -> Option<Op> {
         "set_max" => Op::SetMax(v["c"].as_str()?.parse().ok()?),
         "size" => Op::Size,
         "is_empty" => Op::IsEmpty,
+        "is_full" => Op::IsFull,
         "max_size" => Op::MaxSize,
         _ => return None,
     })
@@ -145,6 +149,7 @@ pub fn apply_real(s: &mut Stack<u8>, op: &Op) -> Ret {
         }
         Op::Size => Ok(Ret::Num(s.size())),
         Op::IsEmpty => Ok(Ret::Bool(s.is_empty())),
+        Op::IsFull => Ok(Ret::Bool(s.is_full())),
         Op::MaxSize => Ok(Ret::Num(s.max_stack_size())),
     });
     match r {
@@ -223,6 +228,13 @@ pub fn apply_ref(vals: &[u8], max: usize, op: &Op) -> Vec<(Ret, Vec<u8>, usize)>
         Op::SetMax(c) => vec![(Ret::Unit, same(), *c)],
         Op::Size => vec![(Ret::Num(n), same(), max)],
         Op::IsEmpty => vec![(Ret::Bool(n == 0), same(), max)],
+        Op::IsFull => {
+            if n > max {
+                vec![(Ret::Bool(true), same(), max), (Ret::Bool(false), same(), max)]
+            } else {
+                vec![(Ret::Bool(n == max), same(), max)]
+            }
+        }
         Op::MaxSize => vec![(Ret::Num(max), same(), max)],
     }
 }
@@ -294,7 +306,7 @@ impl StackModel {
         for c in &self.caps {
             ops.push(Op::SetMax(*c));
         }
-        ops.extend([Op::Size, Op::IsEmpty, Op::MaxSize]);
+        ops.extend([Op::Size, Op::IsEmpty, Op::MaxSize, Op::IsFull]);
         ops
     }
 }
@@ -315,6 +327,7 @@ fn kind_of(op: &Op, r: &Ret) -> String {
         Op::SetMax(_) => "set_max",
         Op::Size => "size",
         Op::IsEmpty => "is_empty",
+        Op::IsFull => "is_full",
         Op::MaxSize => "max_size",
     };
     let k = match r {
@@ -480,7 +493,7 @@ fn long_stacks(run: &mut Run) -> u64 {
         for max in [len.saturating_sub(1), len, len + 1, len + 2, len + 3, len + 300, usize::MAX] {
             let pre = stack_of::<u8>(vals.clone(), max);
             let big: Vec<u8> = (0..300usize).map(|i| (255 - i % 256) as u8).collect();
-            let mut ops = vec![Op::Push(7), Op::Pop, Op::Pop2, Op::Pop3, Op::Top, Op::Top2, Op::Top3, Op::Size, Op::IsEmpty, Op::MaxSize];
+            let mut ops = vec![Op::Push(7), Op::Pop, Op::Pop2, Op::Pop3, Op::Top, Op::Top2, Op::Top3, Op::Size, Op::IsEmpty, Op::MaxSize, Op::IsFull];
             for k in [0usize, 1, 2, 3, 255, 256, 257, len - 1, len, len + 1] {
                 ops.push(Op::Discard(k));
             }
